@@ -427,6 +427,7 @@ func (e *env) runOpSim(i int, op *Op) {
 	e.opIdx = i
 	e.curClass = classify(op)
 	e.firstGet = false
+	e.lockDepth = 0
 	e.stats.Ops++
 	e.stats.OpsByClass[e.curClass]++
 	before := readOpsDone()
